@@ -286,3 +286,25 @@ impl AccessControlBuiltin {
     self.get_grant(&permissions_handle).is_ok()
   }
 }
+
+// Verification accessor (add-only, strengthening round 2): the real `find_grant` of the
+// stored permissions document for the stored subject at an explicit instant (the public
+// entrances always ask at `Utc::now()`).
+#[cfg(rustdds_verif)]
+impl AccessControlBuiltin {
+  /// None: unknown handle / instant not representable.
+  pub(crate) fn verif_has_grant_at(
+    &self,
+    permissions_handle: PermissionsHandle,
+    unix_seconds: i64,
+  ) -> Option<bool> {
+    let (subject_name, permissions_document) =
+      self.get_permissions_document(&permissions_handle).ok()?;
+    let instant = chrono::DateTime::<Utc>::from_timestamp(unix_seconds, 0)?;
+    Some(
+      permissions_document
+        .find_grant(subject_name, &instant)
+        .is_some(),
+    )
+  }
+}
